@@ -17,6 +17,9 @@ class Spec:
                    "nested checksummed chains over-build (known finding D12) and are matched on that shape only"]
     checks = {"csum", "content"}
 
+    def accepts(self, case):
+        return "ops" in case
+
     def cases(self, tier):
         return 1600 if tier == "quick" else 16000
 
@@ -49,3 +52,16 @@ class Spec:
 
 
 SPEC = Spec()
+
+
+def spec_for(case):
+    from . import c03s
+    return c03s.SPEC if "invs" in case else SPEC
+
+
+def run_check(tier, seed):
+    from .. import engine
+    code_h, ev_h = engine.run_property("rv.props.c03", tier, seed)
+    code_s, ev_s = engine.run_property("rv.props.c03s", tier, seed)
+    ev = engine.merge_evidence(ev_h, ev_s, "serial histories", "parallel scheduled scenarios")
+    return (1 if 1 in (code_h, code_s) else max(code_h, code_s)), ev
